@@ -30,7 +30,7 @@ class Calls:
             cls = ex.cur_class
             if cls is None:
                 raise Unsupported('super() outside class')
-            self_val = env.lookup('self')
+            self_val = env.lookup('self') if env.has('self') else (env.lookup('cls') if env.has('cls') else L.NoneV)
             target = None
             for c in self.src.mro(cls)[1:]:
                 if fn.attr in self.src.classes[c].methods:
@@ -38,6 +38,9 @@ class Calls:
                     break
             args, kwargs = self.eval_args(ex, node, env)
             if target is None:
+                base = getattr(ex, 'super_base', None)
+                if fn.attr == '__new__' and base is not None:
+                    return self.engine.model.call_static(ex, St('extclass', base), args[1:], kwargs)
                 # parent outside the package (Decimal_.__str__ ...): opaque
                 return self.engine.model.call_static(ex, St('ext', 'super.' + fn.attr), [self_val] + args, kwargs)
             ex.event('super_call', target.key, tuple([self_val] + args))
@@ -194,6 +197,23 @@ class Calls:
         shapes = self.engine.shapes
         if cname in L.EXC_ID or 'Exception' in ' '.join(ci.bases):
             return L.OpaqueV(L.OK['instance'], ex.fresh_int('excinst'))
+        # a package class derived from an external class (custom_types.Decimal): its own __new__/__init__
+        # if it defines one, else the external constructor
+        ext_base = None
+        for b in ci.bases:
+            g = self.src.globals[ci.module].get(b)
+            if g and g[0] == 'import' and not g[1].startswith('smartquery'):
+                ext_base = g[1]
+        if ext_base is not None and ext_base not in ('abc.ABC',):
+            new = self.src.find_method(cname, '__new__')
+            init = self.src.find_method(cname, '__init__')
+            ex.event('ext_subclass_construct', cname, ext_base)
+            if new is not None:
+                ex.super_base = ext_base
+                return self.call_package(ex, new, [St('class', cname)] + list(args), kwargs)
+            if init is not None:
+                raise Unsupported('__init__ on a subclass of %s' % ext_base)
+            return self.engine.model.call_static(ex, St('extclass', ext_base), args, kwargs)
         ref = ex.alloc()
         ex.assume(L.cls_of(ref) == shapes.cid(cname))
         ex.note_class(ref, cname, exact=True)
